@@ -268,43 +268,48 @@ def clear_unit(U):
 
 
 def extract_time_range_unit(U):
-    def body(it):
-        it.ctx.assume(N >= 1)
-        st, frames, times, grid = _storage(it, 2)
-        # the time stamps are arbitrary: appended sessions may restart the clock, so they need not be sorted
-        made = []
+    """every documented way of giving the range: (t_start, t_end), a single number (= everything up to it), a missing bound
+    given as None (= unbounded on that side) and no argument at all (= everything); the time stamps are arbitrary (appended
+    sessions may restart the clock), so nothing may depend on the first / last stored time being the smallest / largest"""
+    for form in ("(t_start,t_end)", "t_end", "(None,t_end)", "(t_start,None)", "no_argument"):
+        def body(it, form=form):
+            it.ctx.assume(N >= 1)
+            st, frames, times, grid = _storage(it, 2)
+            made = []
 
-        def MemoryStorage(times=None, data=None, field_obj=None, info=None, **kw):
-            made.append((times, data))
-            return Instance(None, {"times": times, "data": data}, name="MemoryStorage")
+            def MemoryStorage(times=None, data=None, field_obj=None, info=None, **kw):
+                made.append((times, data))
+                return Instance(None, {"times": times, "data": data}, name="MemoryStorage")
 
-        it.overrides["MemoryStorage"] = MemoryStorage
-        a, b = z3.Real("t_start"), z3.Real("t_end")
-        it.ctx.assume(a <= b)
-        it.call(it.getattr(st, "extract_time_range"), [(a, b)], {})
-        return made, frames, times, a, b
+            it.overrides["MemoryStorage"] = MemoryStorage
+            a, b = z3.Real("t_start"), z3.Real("t_end")
+            it.ctx.assume(a <= b)
+            args = {"(t_start,t_end)": [(a, b)], "t_end": [b], "(None,t_end)": [(None, b)], "(t_start,None)": [(a, None)], "no_argument": []}[form]
+            it.call(it.getattr(st, "extract_time_range"), args, {})
+            return made, frames, times, a, b
 
-    for p, res in enumerate(explore_paths(U, body)):
-        P = prem_of(res.ctx)
-        nm = f"extract_time_range.path{p}"
-        if res.outcome != "return":
-            U.prove(f"{nm}.returns_normally", P, z3.BoolVal(False), info={"exc": str(res.exc)})
-            continue
-        made, frames, times, a, b = res.value
-        (tms, data), = made if len(made) == 1 else ((None, None),)
-        if tms is None:
-            U.prove(f"{nm}.builds_one_storage", P, z3.BoolVal(False))
-            continue
-        # frame i is kept  <=>  t_start <= t_i <= t_end ; order preserved
-        for i in range(2):
-            kept = any(d is frames[i] for d in data)
-            U.prove(f"{nm}.frame{i}_kept<=>inside_the_requested_range", P, z3.BoolVal(kept) == z3.And(times[i] >= a, times[i] <= b))
-        U.prove(f"{nm}.times_and_frames_stay_paired_in_order", P,
-                z3.BoolVal(len(tms) == len(data) and [next(i for i in range(2) if d is frames[i]) for d in data] == sorted(next(i for i in range(2) if d is frames[i]) for d in data))
-                if all(any(d is f for f in frames) for d in data) else z3.BoolVal(False))
+        for p, res in enumerate(explore_paths(U, body)):
+            P = prem_of(res.ctx)
+            nm = f"extract_time_range[{form}].path{p}"
+            if res.outcome != "return":
+                U.prove(f"{nm}.returns_normally", P, z3.BoolVal(False), info={"exc": str(res.exc)})
+                continue
+            made, frames, times, a, b = res.value
+            (tms, data), = made if len(made) == 1 else ((None, None),)
+            if tms is None:
+                U.prove(f"{nm}.builds_one_storage", P, z3.BoolVal(False))
+                continue
+            # frame i is kept  <=>  it lies inside the requested range ; order preserved
+            for i in range(2):
+                kept = any(d is frames[i] for d in data)
+                lo_ok = times[i] >= a if form in ("(t_start,t_end)", "(t_start,None)") else z3.BoolVal(True)
+                hi_ok = times[i] <= b if form in ("(t_start,t_end)", "t_end", "(None,t_end)") else z3.BoolVal(True)
+                U.prove(f"{nm}.frame{i}_kept<=>inside_the_requested_range", P, z3.BoolVal(kept) == z3.And(lo_ok, hi_ok), info={"replay_payload": {"extract_time_range_form": form}})
+            U.prove(f"{nm}.times_and_frames_stay_paired_in_order", P,
+                    z3.BoolVal(len(tms) == len(data) and [next(i for i in range(2) if d is frames[i]) for d in data] == sorted(next(i for i in range(2) if d is frames[i]) for d in data))
+                    if all(any(d is f for f in frames) for d in data) else z3.BoolVal(False))
 
 
-# ------------------------------------------------------------------ derived views
 def _field_factory(it, grid, made=None):
     """fields as the storage code uses them: real FieldBase.data property/setter on an own buffer; copy()
     yields a field with a fresh buffer of equal content"""
